@@ -8,7 +8,7 @@
                                       compares equal to its serialisation round trip (nodose_eq_fixed).
    Still refuted (shared with C12, not a C05 statement): to_dict is not a function of the == class. *)
 From Coq Require Import QArith ZArith NArith List Bool PArith Arith.
-From PV Require Import Base.PyData Base.Expr Base.Interp C05.Model C05.Proofs.
+From PV Require Import Base.PyData Base.Expr Base.Interp C05.Model C05.ToCs C05.Proofs.
 Import ListNotations.
 Local Open Scope nat_scope.
 
@@ -74,3 +74,65 @@ Theorem dict_order_refuted_relabel :
 Proof.
   exists two_ops_a, (Sym sT). split; [vm_compute; reflexivity|]. vm_compute. discriminate.
 Qed.
+
+(* ---- subs: the node order of the result is not determined by the system (finding C05-SUBS-REORDERS) -------- *)
+(* A (dose AMT) -> C, B (dose AMT) -> C, A -> output, B -> output; subs {AMT: DOSE} changes A and B and leaves C
+   unchanged, so networkx relabels A and B in an order taken from the iteration order of a set of compartments
+   (string hashes): relabelling A last makes A the central compartment and the compartment order B, C, A;
+   relabelling B last keeps B central and the order A, C, B.  Both orders are observed on the real code with
+   different PYTHONHASHSEED. *)
+Definition sDOSE : id := 20%positive. Definition sK10 : id := 21%positive. Definition sK20 : id := 22%positive.
+Definition n_A : name := [65]%N. Definition n_B : name := [66]%N. Definition n_C : name := [67]%N.
+Definition cA : comp := mkComp n_A (Sym sAC) [Bolus (Sym sAMT) 1] (Num 0) (Num 0) (Num 1).
+Definition cB : comp := mkComp n_B (Sym sAP) [Bolus (Sym sAMT) 2] (Num 0) (Num 0) (Num 1).
+Definition cC : comp := mkComp n_C (Sym sKS) [] (Num 0) (Num 0) (Num 1).
+Definition subs_ops : list op :=
+  [OAddCompartment cA; OAddCompartment cB; OAddCompartment cC;
+   OAddFlow n_A (TName n_C) (Sym sK12); OAddFlow n_B (TName n_C) (Sym sK21);
+   OAddFlow n_A TOut (Sym sK10); OAddFlow n_B TOut (Sym sK20)].
+Definition subs_m : list (id * expr) := [(sAMT, Sym sDOSE)].
+
+Theorem subs_order_refuted :
+  exists g m o1 o2,
+    wf_graph g = true /\ names_unique (comps g) = true /\ subs_order_determined m g = false /\
+    Permutation.Permutation o1 o2 /\ (forall n, In n o1 <-> In n (map Cmt (subs_changed m g))) /\
+    map c_name (order (relabel_olds m o1 (subs_rates m g))) <> map c_name (order (relabel_olds m o2 (subs_rates m g))) /\
+    map c_name (order (relabel_olds m o2 (subs_rates m g))) = map c_name (order g).
+Proof.
+  exists (build subs_ops), subs_m, [Cmt cB; Cmt cA], [Cmt cA; Cmt cB].
+  split; [vm_compute; reflexivity|]. split; [vm_compute; reflexivity|]. split; [vm_compute; reflexivity|].
+  split; [apply Permutation.perm_swap|]. split.
+  - intros n. vm_compute. tauto.
+  - split; [vm_compute; discriminate | vm_compute; reflexivity].
+Qed.
+
+(* ---- to_compartmental_system: guard conjuncts of the flow-recovery theorem ------------------------------------------- *)
+(* hard-coded independent variable: the compartments are made by Compartment.create(name), i.e. with the amount
+   A_<name>(t); for a system whose amounts are functions of another variable the rebuilt system has other
+   amounts (on the real code the result even mixes A(t) and A(TIME)) *)
+Theorem tocs_idv_refuted :
+  exists amt_t g,
+    linear_distinct g = true /\ g_default_idv amt_t g = false /\ same_flows g (rebuilt_with amt_t g) (order g) = false.
+Proof.
+  exists (fun _ => Sym 999%positive), (build [OAddCompartment central; OAddFlow n_CENTRAL TOut (Sym sK)]).
+  repeat split; vm_compute; reflexivity.
+Qed.
+
+(* merged monomials: A -> B with rate K and A -> output with rate K (or 2*K next to K): expand() turns the
+   equation of A into the single term -2*K*A_A, the term +K*A_A of B finds no -K*A_A, and the flow A -> B is
+   NOT recovered (it becomes a "zero-order input" K*A_A of B, the output rate becomes 2*K) although the
+   equations are the same.  [eqs] are the expanded equations sympy produces (reproduced on the real code). *)
+Definition merged_g : graph :=
+  build [OAddCompartment cA; OAddCompartment (mkComp n_B (Sym sAP) [] (Num 0) (Num 0) (Num 1));
+         OAddFlow n_A (TName n_B) (Sym sK); OAddFlow n_A TOut (Sym sK)].
+Definition merged_eqs : list leq :=
+  [[mkT false (Mul (Num 2) (Sym sK)) (Some 0%nat)]; [mkT true (Sym sK) (Some 0%nat)]].
+
+Theorem tocs_merged_rates_refuted :
+  let g' := to_cs (map default_comp (order merged_g)) (amounts merged_g) merged_eqs in
+  linear_distinct merged_g = false /\ same_flows merged_g g' (order merged_g) = false /\
+  map c_name (order merged_g) = [n_A; n_B] /\
+  option_map (fun b => (get_flow g' (Cmt (default_comp cA)) (Cmt b), c_input b)) (find_compartment g' n_B)
+  = Some (Num 0, Mul (Sym sK) (Sym sAC)) /\
+  get_flow g' (Cmt (default_comp cA)) Out = Mul (Num 2) (Sym sK).
+Proof. repeat split; vm_compute; reflexivity. Qed.
